@@ -193,6 +193,10 @@ func verifyOwners(entries []discovery.Entry, allowedOwners []*regexp.Regexp) (re
 		if entry.PathError != nil {
 			continue
 		}
+		if entry.Rule.Error.Err != nil {
+			// not a rule: it already gets a parse error report, and there is no key to attach an owner diagnostic to
+			continue
+		}
 		if entry.Owner == "" {
 			reports = append(reports, reporter.Report{
 				Path:          entry.Path,
